@@ -820,8 +820,10 @@ fn run_case(case: &Case, id: usize, w: &mut dyn Watch, st: &mut Stats) {
             Step::EndDrop | Step::EndExplicit => {
                 let Some(mut g) = guards.pop() else { continue };
                 let explicit = matches!(step, Step::EndExplicit);
-                let ok = guard(move || { if explicit { g.end(); } drop(g); }).is_ok();
-                if !ok { break 'steps; }
+                if let Err(p) = guard(move || { if explicit { g.end(); } drop(g); }) {
+                    w.event(json!({"ev":"end","kind": if explicit { "end" } else { "drop" },"r":"panic","site":panic_site(&p),"ul":0,"cr":0,"doc":[0, 0],"x":[0, 0]}), &es);
+                    break 'steps;
+                }
                 let Some((ul, cr)) = obs(&es) else { break 'steps };
                 w.event(json!({"ev":"end","kind": if explicit { "end" } else { "drop" },"ul":ul,"cr":cr}), &es);
             }
